@@ -17,7 +17,7 @@ from ..vlib.report import MachineryError, Report
 from . import c12
 
 util.ensure_repo_importable()
-from strengths import RDGridSpace, kinetics, rdscript_from_dict, simulate_script  # noqa: E402
+from strengths import RDGridSpace, UnitsSystem, kinetics, rdscript_from_dict, simulate_script  # noqa: E402
 from strengths.coarsegrain import coarsegrain_system  # noqa: E402
 
 PROP = "C04"
@@ -79,6 +79,87 @@ def _run(d):
     return pickle.loads(data)
 
 
+def _run_stochastic(job):
+    """job = (script dictionary in default units, engine kind, output units system or None) -> times and data in default units"""
+    d, kind, usys = job
+    r, w = os.pipe()
+    pid = os.fork()
+    if pid == 0:
+        os.close(r)
+        try:
+            sc = rdscript_from_dict(json.loads(json.dumps(d)))
+            if usys is not None:
+                sc.units_system = UnitsSystem(space=usys[0], time=usys[1], quantity=usys[2])
+            out = simulate_script(sc, build.make_engine(kind, lib=_lib))
+            su = out.data.units.sys
+            msg = pickle.dumps(("ok", {"data": [float(v) for v in out.data.convert(serial.US0).value],
+                                       "t": [float(v) for v in out.t.convert(serial.US0).value],
+                                       "out_units": [su["space"], su["time"], su["quantity"]]}))
+        except BaseException as e:  # noqa
+            msg = pickle.dumps(("exc", repr(e)[:300]))
+        with os.fdopen(w, "wb") as f:
+            f.write(msg)
+        os._exit(0)
+    os.close(w)
+    data = engine_rec._read_all(r, 30, pid)
+    _, status = os.waitpid(pid, 0)
+    if data is None:
+        return ("hang",)
+    if os.WIFSIGNALED(status) or not data:
+        return ("crash",)
+    return pickle.loads(data)
+
+
+def stochastic_output_units(rep, tier, rng, sc, allsys):
+    """Last clause of the property for the stochastic engines: with the description and the seed fixed, the units system
+    requested for the output (the script's) changes only the scale of the numbers. The engines work internally in that
+    system with the quantity forced to 'molecule'; every dimensioned input has to be brought there."""
+    nm, nv = (16, 3) if tier == "quick" else (80, 6)
+    jobs, meta = [], []
+    for mi in range(nm):
+        m = serial.random_phys_model(rng, max_cells=3, max_order=3)
+        times = {"dt": Fr(1, 32), "ts": [Fr(0), Fr(1, 4), Fr(1, 2), Fr(1)], "interval": Fr(1, 8)}
+        ref = serial.Describer(sc, {"S1": serial.D, "S2": serial.D}, rng, explicit_p=0.0).script(m, ALL_DEFAULT, EFF_DEFAULT, dict(times, seed=1000 + mi))
+        for kind in ("gillespie", "tauleap"):
+            jobs.append((ref, kind, None))
+            meta.append((mi, kind, None))
+            for _ in range(nv):
+                u = rng.choice(allsys)
+                jobs.append((ref, kind, u))
+                meta.append((mi, kind, u))
+    ctx = mp.get_context("fork")
+    with ctx.Pool(util.NCPU, initializer=_init) as pool:
+        res = pool.map(_run_stochastic, jobs, chunksize=2)
+    refs = {(mi, kind): r for (mi, kind, u), r in zip(meta, res) if u is None}
+    moved = compared = 0
+    for (mi, kind, u), job, r in zip(meta, jobs, res):
+        if u is None:
+            continue
+        ref = refs[(mi, kind)]
+        if ref[0] != "ok":
+            continue            # the reference itself explodes / fails: nothing to compare with (counted below)
+        rep.case(["stochastic-output-units", mi, kind, list(u)])
+        tag = {"engine": kind, "output_units": list(u), "script": job[0]}
+        if r[0] != "ok":
+            rep.violation("units", "units:stochastic-run-" + r[0], dict(tag, info=list(r)))
+            continue
+        compared += 1
+        a, b = ref[1], r[1]
+        if len(set(a["data"][:len(a["data"]) // max(len(a["t"]), 1)])) and a["data"][:len(a["data"]) // max(len(a["t"]), 1)] != a["data"][-(len(a["data"]) // max(len(a["t"]), 1)):]:
+            moved += 1
+        if not close_vec(a["t"], b["t"], rtol=1e-9):
+            rep.violation("units", "units:stochastic-output-units:times-differ", dict(tag, reference=a["t"][:8], got=b["t"][:8]))
+        elif not close_vec(a["data"], b["data"], rtol=1e-9, atol=1e-6):
+            rep.violation("units", "units:stochastic-output-units:data-differ", dict(tag, reference=a["data"][:12], got=b["data"][:12]))
+        elif b["out_units"] != list(u):
+            rep.violation("units", "units:output-units", dict(tag, got=b["out_units"], want=list(u)))
+    nref_ok = sum(1 for r in refs.values() if r[0] == "ok")
+    rep.extra["stochastic_output_units"] = {"reference_runs": len(refs), "reference_runs_usable": nref_ok, "variants_compared": compared,
+                                            "variants_whose_state_moved": moved}
+    if nref_ok < len(refs) // 2 or moved < compared // 3:
+        raise MachineryError("stochastic output-units check is vacuous: %s" % rep.extra["stochastic_output_units"])
+
+
 ALL_DEFAULT = {l: "default" for l in ("script", "system", "network", "species", "reaction", "space", "node", "edge")}
 EFF_DEFAULT = {l: "D" for l in ALL_DEFAULT}
 
@@ -103,7 +184,9 @@ def run(tier, selftest=False, only=None):
                 "units system (= the engine's and the output's) varies with the tree; thorough: every one of the 1100 systems at "
                 "every single level; grid descriptions with reflecting boundaries are also run through the coarse-graining route "
                 "(identity map and a pairwise merge): coarse initial state, node volumes and un-coarse-grained Euler trajectory "
-                "must agree as well; distinct = distinct (model, tree, systems)")
+                "must agree as well; stochastic engines: with description and seed fixed, each of several random output units "
+                "systems must give the reference trajectory (times rtol 1e-9, amounts to 1e-6 molecule); "
+                "distinct = distinct (model, tree, systems)")
     rep.assumptions = ["requested times and t_max sit at (k + 1/2) dt so that rounding of dt in another time unit cannot change "
                        "the number of steps", "models with reaction order <= 3 and small amounts: every unit system keeps all "
                        "intermediate values inside the binary64 range"]
@@ -200,6 +283,7 @@ def run(tier, selftest=False, only=None):
         want_units = list(systems[eff_script]) if eff_script != "D" else list(serial.D)
         if got["out_units"][1] != want_units[1] or got["out_units"][2] != want_units[2]:
             rep.violation("units", "units:output-units", dict(tag, got=got["out_units"], want=want_units))
+    stochastic_output_units(rep, tier, rng, sc, allsys)
     rep.traces = len(jobs)
     rep.extra["variants_also_run_through_coarse_graining"] = ncg
     if ncg == 0:
